@@ -163,6 +163,24 @@ def gen(rng, nfiles=None, clash=False, modclash=False, multiuse=False, children=
     return files, meta
 
 
+def gen_table(rng, nmods=None):
+    """a project whose graphs fall back to the HTML table (run it with graph: true and a low graph_maxnodes):
+    a module `base` with a procedure `helper`; several modules that use it, each with a procedure of (almost)
+    the same name that calls helper - the neighbours of helper (and of base) are many and equally labelled"""
+    nmods = nmods or rng.choice([4, 5, 6])
+    spell = ["init", "init", "Init", "INIT", "setup"]
+    files = {"src/base.f90": "module base\n  !! the base\ncontains\n  subroutine helper()\n    !! helps\n"
+                             "  end subroutine helper\nend module base\n"}
+    for k in range(1, nmods + 1):
+        nm = rng.choice(spell)
+        d = rng.choice(["src", "src/sub"])
+        files[f"{d}/m{k}.f90"] = (f"module m{k}\n  use base\ncontains\n  subroutine {nm}()\n    call helper()\n"
+                                  f"  end subroutine {nm}\nend module m{k}\n")
+    meta = {"clash": True, "modclash": False, "multiuse": False, "children": False, "nfiles": nmods + 1,
+            "extra": False, "table": True}
+    return files, meta
+
+
 def other_project(rng):
     """an unrelated project whose output is used as the stale content of an output directory"""
     return {"src/zzother.f90": "module zz_stale_mod\n  integer :: zz_stale_var\n  !! stale\ncontains\n"
